@@ -24,7 +24,7 @@ CHECKS = {
         "level": "exploration",
         "technique": "property-based testing (rapid): generated minter configurations x block partitions against an exact fixed-point reference schedule, plus an exact metamorphic twin (one block at the final instant)",
         "tests": [T("TestC02", 3000, 20000, qshards=2)],
-        "rule": "cases = valid minter configuration (1-6 periods of none/linear/exponential kinds, amounts from a boundary-biased mixture up to 10^36, "
+        "rule": "cases = valid minter configuration (1-6 periods of none/linear/exponential kinds, listed in ascending or - one configuration in three - in a drawn permuted order, amounts from a boundary-biased mixture up to 10^36, "
                 "multipliers in [0,1], sub-ms jitter on period lengths) x sorted block instants drawn from schedule boundaries (+-0,1ns,1ms,1s), uniform points and repeats. "
                 "Non-trivial = at least 3 blocks, at least one block strictly inside a minting (linear/exponential) period and, for multi-period configurations, at least one period-boundary crossing. "
                 "Distinct = SHA-256 of (configuration, block instants).",
@@ -40,7 +40,7 @@ CHECKS = {
         "level": "exploration",
         "technique": "property-based testing (rapid): generated valid sub-distributor graphs x multi-denomination inflow histories; invariant oracle (books identity, registered invariants, coin conservation) after every block",
         "tests": [T("TestC03", 1500, 6000, qshards=2)],
-        "rule": "cases = sub-distributor configuration built to satisfy validation (1-4 drawn sub-distributors + repair sink; sources/destinations from MAIN, 12 module accounts, funded/new/blocked/vesting-locked base accounts, internal ids including ids equal to module names and addresses; 1-3 sources in any order; 0-3 shares and burn share from a boundary pool, sum < 1) "
+        "rule": "cases = sub-distributor configuration built to satisfy validation (1-4 drawn sub-distributors + repair sink; sources/destinations from MAIN, 12 module accounts, funded/new/blocked/vesting-locked base accounts, the main account's own address in lower- or upper-case bech32 in a 4% trickle, internal ids including ids equal to module names and addresses; 1-3 sources in any order; 0-3 shares and burn share from a boundary pool, sum < 1) "
                 "x 2-8 blocks x 0-3 injections per block into MAIN and swept accounts (uc4e and uatom, amounts from the boundary mixture up to 10^30). "
                 "Non-trivial = (>= 2 sub-distributors or a multi-source sub-distributor) and a fractional leftover was recorded in some block. Distinct = SHA-256 of (configuration, inflows).",
         "min_nontrivial_fraction": 0.25,
@@ -107,7 +107,7 @@ CHECKS = {
         "level": "exploration",
         "technique": "stateful property-based testing (rapid) with an exact-rational oracle for the vested part and the documented schedule rules",
         "tests": [T("TestC08", 600, 3000, qshards=2, steps=50)],
-        "rule": "cases = as C05. Oracle on every accepted pool send: recipient did not exist before, is a ContinuousVestingAccount holding exactly the amount, original vesting == floor(amount*(1-free)) computed with big.Rat, start/end == (now+lockup, now+lockup+vesting) for restart or (lock end, lock end) otherwise (unix seconds), the pool's sent counter grew by exactly the amount, other pools changed only by the implicit withdrawal; a send above the pool's remaining locked amount or to an existing address must be rejected. On direct creation: sender -coins, recipient +coins, original vesting == coins, given start/end. "
+        "rule": "cases = as C05; the vesting types are installed through the module's real genesis import, each period stated as value and unit with the unit drawn among those that divide it. Oracle on every accepted pool send: recipient did not exist before, is a ContinuousVestingAccount holding exactly the amount, original vesting == floor(amount*(1-free)) computed with big.Rat, start/end == (now+lockup, now+lockup+vesting) for restart or (lock end, lock end) otherwise (unix seconds), the pool's sent counter grew by exactly the amount, other pools changed only by the implicit withdrawal; a send above the pool's remaining locked amount or to an existing address must be rejected. On direct creation: sender -coins, recipient +coins, original vesting == coins, given start/end. "
                 "Non-trivial = an accepted send whose free part amount*free is not an integer, or an accepted send of exactly the pool's remainder. Distinct = SHA-256 of the history.",
         "min_nontrivial_fraction": 0.08,
         "min_class_fraction": {"fractional_free_part": 0.05, "exact_remainder_amount": 0.03},
@@ -135,7 +135,7 @@ CHECKS = {
         "technique": "property-based testing (rapid) with a structured amount generator (m*10^k+o, small-denominator elapsed fractions), exactness oracle on locked/spendable coins and a metamorphic schedule-preservation relation at sampled future times",
         "tests": [T("TestC07", 3000, 12000, qshards=2)],
         "plain_tests": ["TestRegressC07"],
-        "rule": "cases = continuous vesting sender with 1-3 denominations, original vesting per denomination half from the shape m*10^k+o (m in {1,2,3,5,7,9}, k<=30, o in -3..3) and half from the boundary mixture up to 10^30; schedule with elapsed fraction num/den for den in {2,3,4,5,7,8,10,100,997,1000} (num=-1: start in the future); optional extra spendable coins; optional real MsgDelegate of part of the balance; then a chain of 1-5 split / move / move-by-denoms messages from the sender or earlier recipients with per-denomination amounts in {1, locked, locked-1, omitted, uniform in 1..locked}. "
+        "rule": "cases = continuous vesting sender with 1-3 denominations, original vesting per denomination half from the shape m*10^k+o (m in {1,2,3,5,7,9}, k<=30, o in -3..3) and half from the boundary mixture up to 10^30; schedule with elapsed fraction num/den for den in {2,3,4,5,7,8,10,100,997,1000} (num=-1: start in the future); optional extra spendable coins; optional real MsgDelegate of part of the balance; then a chain of 1-5 split / move / move-by-denoms messages (the by-denoms list in a drawn order, half of the time with a not-held denomination added) from the sender or earlier recipients with per-denomination amounts in {1, locked, locked-1, omitted, uniform in 1..locked}. "
                 "Non-trivial = a split accepted strictly inside the vesting period for less than everything locked. Distinct = SHA-256 of the history.",
         "min_nontrivial_fraction": 0.2,
         "min_class_fraction": {"delegated_vesting": 0.08, "chain_depth_ge2": 0.3, "ov_digits_20": 0.08, "ov_digits_25": 0.05, "ov_digits_30": 0.05, "multi_denom": 0.3},
@@ -201,7 +201,7 @@ CHECKS = {
         "level": "exploration",
         "technique": "stateful property-based testing (rapid state machine) over the seven parameter-update messages x authority strings x valid / mutated / partially valid payloads; invariant + exact-effect oracle after every step",
         "tests": [T("TestC13", 400, 2000, qshards=2, steps=40), T("TestC13ABCI", 40, 300, tshards=4)],
-        "rule": "cases = generated valid minter and distributor configurations, then a rapid state machine (avg 40 steps): blocks (the minter's current period advances), pool creation, minter MsgUpdateParams / MsgUpdateMintersParams (valid around the current period, or one of 10 invalidating mutations; denomination from {uc4e, uatom, '', x}), distributor MsgUpdateParams (valid or one of 5 mutations), MsgUpdateSubDistributorParam (a drawn sub-distributor under an existing or unknown name - individually valid, possibly breaking the whole-configuration ordering rule), destination-share and burn-share updates (pool values, values making the sum >= 1, out-of-range values, unknown names), MsgUpdateDenomParam; authority drawn from {gov x3, a user, a module address, '', garbage}. Real path: ValidateBasic then the registered handler with baseapp semantics. "
+        "rule": "cases = generated valid minter and distributor configurations, in one world out of three 1-3 owner records without pools imported through the vesting genesis import, then a rapid state machine (avg 40 steps): blocks (the minter's current period advances), pool creation, minter MsgUpdateParams / MsgUpdateMintersParams (valid around the current period, or one of 10 invalidating mutations; denomination from {uc4e, uatom, '', x}), distributor MsgUpdateParams (valid or one of 5 mutations), MsgUpdateSubDistributorParam (a drawn sub-distributor under an existing or unknown name - individually valid, possibly breaking the whole-configuration ordering rule), destination-share and burn-share updates (pool values, values making the sum >= 1, out-of-range values, unknown names), MsgUpdateDenomParam; authority drawn from {gov x3, a user, a module address, '', garbage}. Real path: ValidateBasic then the registered handler with baseapp semantics. "
                 "After every step: the stored parameters of the three modules validate, the minter's current period is in the stored configuration, a non-governance authority is rejected, a rejected message leaves all three parameter sets byte-identical, an accepted message stores exactly its documented effect (full replacement / minters+start / one sub-distributor / one share / one burn share / denomination), the vesting denomination never changes while pools exist. Non-trivial = a rejected update after at least two accepted partial updates. Distinct = SHA-256 of the history.",
         "min_nontrivial_fraction": 0.2,
         "min_class_fraction": {"non_gov_authority": 0.5, "invalid_minter_payload": 0.2, "invalid_distributor_payload": 0.2, "some_update_accepted": 0.5},
@@ -214,7 +214,7 @@ CHECKS = {
         "level": "exploration",
         "technique": "property-based differential testing (rapid): generated ABCI histories executed on two independently constructed applications (thorough: plus a replica in a second OS process), comparing app hashes, transaction results and events at every height",
         "tests": [T("TestC11", 25, 120, qshards=4, timeout=900)],
-        "rule": "cases = generated genesis (minter configuration, sub-distributor configuration, 1-4 vesting types, 0-3 genesis pools) + 5-25 blocks with dt in {1s,5s,11s,1min,1d,30d}, each carrying 0-4 signed SIGN_MODE_DIRECT transactions built against the live state: create pool, pool send, withdraw, direct vesting-account creation, split / move / move-by-denoms signed by previously created vesting accounts, MsgDelegate from vesting accounts, bank sends into distributor sources, cfesignature messages (unroutable on this tree), governance proposals carrying minter / distributor / vesting parameter updates followed by a validator-delegator yes vote and execution after the 10 s voting period, user-signed parameter updates, garbage bytes and wrong-sequence transactions. "
+        "rule": "replicas per history: B fresh app in the same process; R process restarts (new app instance over the same database) after 1-3 drawn blocks; S also serves CheckTx / Simulate / gRPC queries for the coming transactions between blocks; C second OS process (1-4 histories per shard). cases = generated genesis (minter configuration, sub-distributor configuration, 1-4 vesting types, 0-3 genesis pools) + 5-25 blocks with dt in {1s,5s,11s,1min,1d,30d}, each carrying 0-4 signed SIGN_MODE_DIRECT transactions built against the live state: create pool, pool send, withdraw, direct vesting-account creation, split / move / move-by-denoms signed by previously created vesting accounts, MsgDelegate from vesting accounts, bank sends into distributor sources, cfesignature messages (unroutable on this tree), governance proposals carrying minter / distributor / vesting parameter updates followed by a validator-delegator yes vote and execution after the 10 s voting period, user-signed parameter updates, garbage bytes and wrong-sequence transactions. "
                 "Replica B is a separately constructed app fed the identical genesis bytes and transaction bytes. Compared per height: Commit app hash, every ResponseDeliverTx {code, codespace, data, gas used/wanted, events}, BeginBlock and EndBlock events, validator updates. Log strings are not compared (ABCI declares them non-deterministic), differences are counted. Non-trivial = at least one accepted vesting transaction and one rejected transaction. Distinct = SHA-256 of (genesis, history).",
         "min_nontrivial_fraction": 0.5,
         "min_class_fraction": {"gov_proposal_executed": 0.2, "vesting_tx_accepted": 0.5, "tx_rejected": 0.5},
@@ -254,7 +254,7 @@ CHECKS = {
         "level": "exploration",
         "technique": "property-based fuzzing (rapid) of all 17 message types and 18 query types with boundary field pools restricted to wire-reachable values; oracle = recover() around ValidateBasic, GetSigners (after a passing ValidateBasic), the registered handler and the query method",
         "tests": [T("TestC20Msgs", 6000, 40000, qshards=2), T("TestC20Queries", 3000, 20000), T("TestC20SigStrings", 2000, 10000)],
-        "rule": "messages: one of the 17 Msg types of cfevesting, cfeminter, cfedistributor and cfesignature with every field drawn from its boundary pool - addresses {'', malformed, foreign prefix, 1200 chars, module, vesting, fresh, gov, owner}, Int {absent (nil), 0, -1, 2^255, 2^256-1, 10^30, small}, Dec {absent, 0, -0.1, 2, 1, 10^-18, pct}, strings {'', 1 char, 5000 chars, control characters, valid names}, Coins {absent, empty, nil amount, zero, duplicates, unsorted, negative, bad denom, valid}, durations/times {0, -1, 1, max}, minters with absent / every concrete config and boundary amounts, sub-distributors absent or with arbitrary account types - against 5 states (no pools; pools; a pool whose vesting type is gone; pools past lock end; vesting denomination changed by governance). Only wire-reachable values are generated (zero values = omitted fields; no nil entries in repeated fields; every message must survive marshal/unpack with the app codec). "
+        "rule": "messages: one of the 17 Msg types of cfevesting, cfeminter, cfedistributor and cfesignature with every field drawn from its boundary pool - addresses {'', malformed, foreign prefix, 1200 chars, module, vesting, fresh, gov, owner}, Int {absent (nil), 0, -1, 2^255, 2^256-1, 10^30, small}, Dec {absent, 0, -0.1, 2, 1, 10^-18, pct}, strings {'', 1 char, 5000 chars, control characters, valid names}, Coins {absent, empty, nil amount, zero, duplicates, unsorted, negative, bad denom, valid}, durations/times {0, -1, 1, max}, minters with absent / every concrete config and boundary amounts, sub-distributors absent or with arbitrary account types - against 6 states (no pools; pools; a pool whose vesting type is gone; pools past lock end; vesting denomination changed by governance; pools whose coins a governance-installed sub-distributor with the cfevesting module account as source has swept away, before or after lock end). Only wire-reachable values are generated (zero values = omitted fields; no nil entries in repeated fields; every message must survive marshal/unpack with the app codec). "
                 "queries: each of the 18 query methods with the same pools, on 3 states (incl. a traced non-vesting account and stored signature garbage). Non-trivial (messages) = ValidateBasic passed, i.e. the handler ran. Distinct = SHA-256 of (state, message).",
         "min_nontrivial_fraction": 0.3,
         "min_class_fraction": {},
